@@ -34,55 +34,60 @@ def call_onnx_api(func: Callable[[onnx.ModelProto], _R], model: ir.Model) -> _R:
     Returns:
         The resulting ModelProto that contains the result of the API call.
     """
-    # Store the original initializer values so they can be restored
-    initializer_values = tuple(model.graph.initializers.values())
-    tensors = {v.name: v.const_value for v in initializer_values}
-    original_inputs_len = len(model.graph.inputs)
-
-    # Turn the initializers into inputs and clear the initializers
-    # to limit the model size
-    for initializer in initializer_values:
-        # Make sure the initializer has its shape/type set
-        if initializer.const_value is not None:
-            if initializer.shape is None:
-                initializer.shape = initializer.const_value.shape  # type: ignore[assignment]
-            if initializer.dtype is None:
-                initializer.dtype = initializer.const_value.dtype
-        if initializer not in model.graph.inputs:
-            model.graph.inputs.append(initializer)
-        if initializer.const_value is None:
-            # Initializer has no data (e.g. weights not loaded yet).
-            # Remove it from initializers so serialization doesn't fail,
-            # but keep it as an input so shape inference can use its type/shape.
-            assert initializer.name is not None
-            model.graph.initializers.pop(initializer.name)
-        elif initializer.const_value.nbytes > _BIG_TENSOR_SIZE_LIMIT:
-            # Temporarily remove the initializer value to reduce model size
-            # for onnx.shape_inference
-            initializer.const_value = None
-            assert initializer.name is not None
-            model.graph.initializers.pop(initializer.name)
-
-    proto = ir.serde.serialize_model(model)
+    graph = model.graph
+    # Snapshot everything that is touched below so that it can be restored exactly:
+    # the initializer objects, their keys and order, their tensors, shapes and types,
+    # and the graph inputs.
+    initializer_values = tuple(graph.initializers.values())
+    saved_fields = tuple(
+        (value.const_value, value.shape, value.type) for value in initializer_values
+    )
+    original_inputs = tuple(graph.inputs)
 
     try:
+        # Turn the initializers into inputs and clear the initializers
+        # to limit the model size
+        for initializer in initializer_values:
+            # Make sure the initializer has its shape/type set
+            if initializer.const_value is not None:
+                if initializer.shape is None:
+                    initializer.shape = initializer.const_value.shape  # type: ignore[assignment]
+                if initializer.dtype is None:
+                    initializer.dtype = initializer.const_value.dtype
+            if initializer not in graph.inputs:
+                graph.inputs.append(initializer)
+            if initializer.const_value is None:
+                # Initializer has no data (e.g. weights not loaded yet).
+                # Remove it from initializers so serialization doesn't fail,
+                # but keep it as an input so shape inference can use its type/shape.
+                assert initializer.name is not None
+                graph.initializers.pop(initializer.name)
+            elif initializer.const_value.nbytes > _BIG_TENSOR_SIZE_LIMIT:
+                # Temporarily remove the initializer value to reduce model size
+                # for onnx.shape_inference
+                initializer.const_value = None
+                assert initializer.name is not None
+                graph.initializers.pop(initializer.name)
+
+        proto = ir.serde.serialize_model(model)
+
         # Call the ONNX C API function
         result = func(proto)
     finally:
-        # Restore the original initializer values so the model is unchanged
+        # Restore the model no matter which of the steps above failed
+        for initializer, (const_value, shape, type_) in zip(initializer_values, saved_fields):
+            initializer.const_value = const_value
+            initializer.shape = shape
+            initializer.type = type_
+        # Rebuild the mapping so that the keys and their order are as before
+        graph.initializers.clear()
         for initializer in initializer_values:
-            initializer.const_value = tensors[initializer.name]
-            if initializer.const_value is not None:
-                model.graph.register_initializer(initializer)
-            else:
-                # register_initializer requires const_value to be set.
-                # Directly add to the initializers dict to restore unloaded
-                # initializers that have no data.
-                model.graph.initializers.add(initializer)
+            # register_initializer requires const_value to be set, so add directly
+            # to also restore unloaded initializers that have no data.
+            graph.initializers.add(initializer)
 
         # Restore the original inputs
-        inputs = model.graph.inputs[:original_inputs_len]
-        model.graph.inputs.clear()
-        model.graph.inputs.extend(inputs)
+        graph.inputs.clear()
+        graph.inputs.extend(original_inputs)
 
     return result
